@@ -42,7 +42,13 @@ theorem reach_empty {conc : Bool} {c : Nat} {ac acl : Bool} {flt : Fault} {s : C
     `HistorySpec` — cycle by cycle there is a non-decreasing permutation `ys` of the values
     pushed in that cycle such that every `Push`, `Finalise` and `Clear` succeeded, the j-th
     `Pull` delivered `ys[j]`, then `io.EOF`; `Len`/`Pos` as the property states.  Writers spawned
-    by an earlier cycle never leak a value into a later one. -/
+    by an earlier cycle never leak a value into a later one.
+
+    (AutoClean: the model records the removal of the temporary directory when a `Pull` reports
+    io.EOF but does not make a *later* temporary-file creation fail in the removed directory, as
+    the operating system does; the correspondence therefore generates AutoClean only for
+    histories in which no cycle but the last is drained, and for `acl = true` the theorem is
+    tied to the code on those.) -/
 theorem conc_history_sorted_multiset (c : Nat) (hc : 1 ≤ c) (conc ac acl : Bool) (h : List Cycle)
     (hwf : wellFormed ac h = true) {s : CState}
     (hr : Reach (sys conc c ac acl (histOps h) none) s) (hfin : finished s = true) :
